@@ -116,7 +116,12 @@ RealIdx(e) ==
              /\ \E i \in 1..Len(re) : Near(e.vals[j], FxOfRat(re[i]), tol)
              /\ \A i \in 1..Len(cr) : ~Near(e.vals[j], FxOfRat(cr[i]), tol)}
 
-FacExDemanded(e) == CholKnown(e.gen) /\ (e.routine \in {"cholesky", "ldl"} \/ (e.routine = "ldl_forcepd" /\ SuffPD(e.gen)))
+FacExDemanded(e) == \/ CholKnown(e.gen) /\ (e.routine \in {"cholesky", "ldl"} \/ (e.routine = "ldl_forcepd" /\ SuffPD(e.gen)))
+                    \/ RootKnown(e.gen) /\ e.routine \in {"msqrt", "msqrtinv"}
+ExactF1(e) == CASE e.routine = "cholesky" -> CholL(e.gen)
+                [] e.routine = "msqrt" -> SqrtM(e.gen)
+                [] e.routine = "msqrtinv" -> InvSqrtM(e.gen)
+                [] OTHER -> LdlL(e.gen)
 RMatFx(R) == TLCEval([i \in 1..Len(R) |-> TLCEval([j \in 1..Len(R[i]) |-> FxOfRat(R[i][j])])])
 
 (* coarse re-computation of the defining equation; TRUE when it cannot be formed safely *)
@@ -170,8 +175,8 @@ Clauses(e) ==
                         fx => (Len(e.vals) = e.gen.n /\ \A i \in 1..e.gen.n : Near(LoggedVals(e)[i], ExactVals(e)[i], ValTol(e))))} ELSE {})
      \cup (IF FacExDemanded(e) /\ e.facexa /\ e.has1
            THEN {Clause("factorexact", e.facex,
-                        fx => /\ NearM(e.f1, RMatFx(IF e.routine = "cholesky" THEN CholL(e.gen) ELSE LdlL(e.gen)), ZT)
-                              /\ (e.routine # "cholesky" /\ e.has2) =>
+                        fx => /\ NearM(e.f1, RMatFx(ExactF1(e)), ZT + (IF RootKnown(e.gen) THEN S \div 32 ELSE 0))
+                              /\ (e.routine \in {"ldl", "ldl_forcepd"} /\ e.has2) =>
                                    \A i \in 1..e.gen.n : Near(e.f2[i][i], FxOfRat(LdlD(e.gen)[i]), ZT))} ELSE {})
      \cup (IF e.agreea THEN {Clause("typesagree", e.agree, TRUE)} ELSE {})
      \cup (IF e.middlea THEN {Clause("optionindependent", e.middle, TRUE)} ELSE {})
@@ -210,6 +215,9 @@ SubClass(e) ==
         ELSE IF e.outcome = "ok" /\ e.vfxok /\ CloseVals(e) THEN "repeated_eigenvalues" ELSE "unknown_spectrum")
   ELSE IF e.routine = "gramschmidt" THEN (IF FullColRank(e.gen) THEN "full_rank" ELSE "rank_deficient")
   ELSE IF e.routine \in {"msqrt", "msqrtinv"} /\ e.gen.cls = "spd" /\ e.gen.n = 4 THEN "spd_4x4"
+  ELSE IF e.routine \in {"msqrt", "msqrtinv"} /\ e.gen.cls = "spdcond"
+       THEN (IF e.gen.k >= 14 THEN "spd_cond_ge_1e4" ELSE "spd_cond_le_1e3")           \* prescribed condition number 4^j = 2^k
+  ELSE IF e.routine = "qr" /\ e.gen.n >= 6 THEN "n_ge_6"
   ELSE "any"
 
 Report(e, v) ==
